@@ -20,8 +20,9 @@ produces have distinct keys per dictionary (`nodupKeys`).
   integer key, which `json.dumps` writes as its decimal string; list: replace inside the range; string and
   scalars: `TypeError`).
 * `getParam` / `setParam` — the two functions on an object tree of the codec model: `get` on `enc v`;
-  `sett` on `enc v`, then `load_from_json (json.dumps o)` = `dec` (`none` = the `ValueError` of the
-  `except` branch).  The errors of the walk are raised BEFORE the `try` and reach the caller unchanged.
+  `sett` on `enc v`, then `load_from_json (json.dumps o)` = `dec`; a failing loader is the `ValueError` of the
+  `except` branch — or the `TypeError` that branch itself raises when `o['name']` is no string
+  (`loadFailure`).  The errors of the walk are raised BEFORE the `try` and reach the caller unchanged.
 
 Not modelled: keys of a path that are neither `str` nor `int` (floats, `None`, tuples, bools); values handed
 to `set_param` that are no JSON values (a `datetime`, a numpy array: `json.dumps` raises inside the `try`,
@@ -193,12 +194,40 @@ def paramsTree (S : List ClassSchema) (tc : TimeCodec) (v : PyVal) : Option (Lis
 def getParam (S : List ClassSchema) (tc : TimeCodec) (v : PyVal) (p : List Key) : Except PathError JVal :=
   getPath (treeOf (enc S tc v)) p
 
-/-- `set_param obj path value`: an error of the walk, or `some` re-created object / `none` = `ValueError` -/
+/-- exception classes of `set_param` -/
+inductive SetError
+  | walk (e : PathError)   -- raised by `sett`, before the `try`
+  | value                  -- the `ValueError` of the `except` branch: the object could not be created
+  | nameType               -- `TypeError` raised INSIDE the `except` branch while the message is put together
+  deriving DecidableEq, Repr, Inhabited
+
+def SetError.toString : SetError → String
+  | .walk e => e.toString
+  | .value => "ValueError"
+  | .nameType => "TypeError"
+
+/-- what the `except` branch raises for the mutated tree `o`:
+`if 'name' in o: n = o['name'] else: n = 'NA'; raise ValueError('…' + n + …)` — for a dictionary whose `name`
+is no string the concatenation is a `TypeError`; for a list that CONTAINS the string 'name', `o['name']` is one -/
+def loadFailure : JVal → SetError
+  | .obj kvs =>
+      match lookup "name" kvs with
+      | some (.str _) => .value
+      | some _ => .nameType
+      | none => .value
+  | .arr xs => if xs.any (fun x => match x with | .str s => s == "name" | _ => false) then .nameType else .value
+  | _ => .value
+
+/-- `set_param obj path value`: an error of the walk, the re-created object, or the error of the `except` branch
+when `load_from_json (json.dumps o)` fails -/
 def setParam (S : List ClassSchema) (tc : TimeCodec) (v : PyVal) (p : List Key) (x : JVal) :
-    Except PathError (Option PyVal) :=
+    Except SetError PyVal :=
   match setPath (treeOf (enc S tc v)) p x with
-  | .error e => .error e
-  | .ok t => .ok (dec S tc t)
+  | .error e => .error (.walk e)
+  | .ok t =>
+      match dec S tc t with
+      | some w => .ok w
+      | none => .error (loadFailure t)
 
 /-! ## predicates used by the theorems -/
 
@@ -240,13 +269,21 @@ def nonNegPath (p : List Key) : Bool :=
     | .idx i => decide (0 ≤ i)
     | .name _ => true
 
+def isStr : JVal → Bool
+  | .str _ => true
+  | _ => false
+
 /-- the walk along `p` indexes into a string at some step (reads a character) -/
 def strStep : JVal → List Key → Bool
   | _, [] => false
-  | .str _, _ :: _ => true
   | d, k :: rest =>
-      match getStep d k with
-      | .ok c => strStep c rest
-      | .error _ => false
+      isStr d || (match getStep d k with
+                  | .ok c => strStep c rest
+                  | .error _ => false)
+
+/-- the entry `make_dict` writes for a path: the bare key for a path of length one, the list otherwise -/
+def entryOf : List Key → KeyEntry
+  | [k] => .bare k
+  | ks => .path ks
 
 end EAO.Params
